@@ -93,7 +93,14 @@ def run_shape(shape):
             Q = one(E, D)
             Qs = one([e + cshift for e in E], D)
             Qa = one(E, ascale * D)
-        return Q, Qs, Qa
+            # a second call on the SAME object and the same input arrays: the builder must be a pure function of its inputs
+            Sm, Hm = mk(S, shape["fmt_S"]), mk(H, shape["fmt_h"])
+            En, Vn = sarr([SR(e) for e in E]), sarr([SR(v) for v in V])
+            obj = T.SQRA(energies=En, volumes=Vn, distances=Hm, surfaces=Sm)
+            q1 = obj.get_rate_matrix(SR(D), SR(Tt))
+            q2 = obj.get_rate_matrix(SR(D), SR(Tt))
+            inputs_after = (list(Sm.data), list(Hm.data), list(En), list(Vn))
+        return Q, Qs, Qa, q1, q2, inputs_after
 
     expf = uf_exp()
     for path in eng.explore(body):
@@ -102,7 +109,7 @@ def run_shape(shape):
             acc.structural("no_exception", False, detail=repr(path.value),
                            cex={"kind": "exception", "exc": type(path.value).__name__})
             continue
-        Q, Qs, Qa = path.value
+        Q, Qs, Qa, q1, q2, inputs_after = path.value
         prem = path.premises
         if acc.reachable is not True:
             acc.reach(prover.satisfiable(prem))
@@ -127,6 +134,14 @@ def run_shape(shape):
                 else:
                     claims.append((f"zero[{i},{j}]", q == 0))
             claims.append((f"rowsum[{i}]", rowsum == 0))
+        q1d, q2d = q1.toarray(), q2.toarray()
+        for i in range(n):
+            for j in range(n):
+                claims.append((f"repeat_call[{i},{j}]", z3.And(z(q1d[i, j]) == z(Qd[i, j]), z(q2d[i, j]) == z(Qd[i, j]))))
+        Sa, Ha, Ea, Va = inputs_after
+        claims += [(f"inputs_untouched[S,{k_}]", z(Sa[k_]) == S[keys[k_]]) for k_ in range(len(keys))]
+        claims += [(f"inputs_untouched[h,{k_}]", z(Ha[k_]) == H[keys[k_]]) for k_ in range(len(keys))]
+        claims += [(f"inputs_untouched[E,{i}]", z(Ea[i]) == E[i]) for i in range(n)] + [(f"inputs_untouched[V,{i}]", z(Va[i]) == V[i]) for i in range(n)]
         res = prover.prove_all(prem, claims)
         nice = _nice(E, V, S, H, D, Tt, cshift, ascale) + exp_facts(argterms[:6])
         acc.add(res, make_cex=lambda r, prem=prem, claims=dict(claims): _cex(prover, prem, claims[r.name], nice, r))
@@ -155,7 +170,7 @@ def _defs(path, Qd, i, j):
 def _nice(E, V, S, H, D, Tt, cshift, ascale):
     out = [z3.And(x >= z3.RealVal("1/2"), x <= 4) for x in V + list(set(S.values())) + list(set(H.values())) + [D]]
     out += [z3.And(Tt >= 250, Tt <= 350), z3.And(ascale >= 2, ascale <= 3), z3.And(cshift >= 1, cshift <= 7)]
-    out += [z3.And(e >= -20, e <= 20) for e in E]
+    out += [z3.And(e >= -700, e <= 700) for e in E]
     out += [z3.Or(a - b >= 1, b - a >= 1) for a, b in itertools.combinations(E, 2)]
     return out
 
@@ -191,13 +206,23 @@ def numeric_violations(shape, E, V, S, Hm, sv, hv, D, Tt, shift, scale):
     import contextlib, io
     n = shape["n"]
     bad = []
+    rel = lambda a, b: abs(a - b) <= 1e-9 * max(abs(a), abs(b))   # purely relative: rates span hundreds of orders of magnitude
     with contextlib.redirect_stdout(io.StringIO()):
-        Q = T.SQRA(E, V, Hm, S).get_rate_matrix(D, Tt)
-        Qs = T.SQRA(E + shift, V, Hm, S).get_rate_matrix(D, Tt)
-        Qa = T.SQRA(E, V, Hm, S).get_rate_matrix(scale * D, Tt)
+        S0, H0, E0, V0 = S.copy(), Hm.copy(), E.copy(), V.copy()
+        obj = T.SQRA(E, V, Hm, S)
+        Q = obj.get_rate_matrix(D, Tt)
+        Q2 = obj.get_rate_matrix(D, Tt)
+        untouched = np.array_equal(S.data, S0.data) and np.array_equal(Hm.data, H0.data) and np.array_equal(E, E0) and np.array_equal(V, V0)
+        S, Hm, E, V = S0, H0, E0, V0
+        Qs = T.SQRA(E + shift, V, Hm.copy(), S.copy()).get_rate_matrix(D, Tt)
+        Qa = T.SQRA(E, V, Hm.copy(), S.copy()).get_rate_matrix(scale * D, Tt)
     Qd, Qsd, Qad = (np.asarray(x.toarray(), dtype=float) for x in (Q, Qs, Qa))
     if Qd.shape != (n, n):
         return [f"shape {Qd.shape}"]
+    if not untouched:
+        bad.append("inputs_untouched")
+    if not np.allclose(np.asarray(Q2.toarray(), dtype=float), Qd, rtol=1e-12, atol=0):
+        bad.append("repeat_call")
     R = kB * N_A / 1000
     for i in range(n):
         if not isclose(Qd[i].sum(), 0.0, atol=1e-9 * max(1.0, np.abs(Qd[i]).max())):
@@ -212,12 +237,12 @@ def numeric_violations(shape, E, V, S, Hm, sv, hv, D, Tt, shift, scale):
             if (i, j) in sv:
                 d = min(E[i] - E[j], 500.0)
                 exp_ = D * sv[(i, j)] / (hv[(i, j)] * V[i]) * math.exp(d / (2 * R * Tt))
-                if not isclose(Qd[i, j], exp_):
+                if not rel(Qd[i, j], exp_):
                     bad.append(f"formula[{i},{j}]")
                 if abs(E[i] - E[j]) < 500 and i < j:
                     l = V[i] * math.exp(-E[i] / (R * Tt)) * Qd[i, j]
                     r = V[j] * math.exp(-E[j] / (R * Tt)) * Qd[j, i]
-                    if not isclose(l, r):
+                    if not rel(l, r):
                         bad.append(f"DB[{i},{j}]")
             elif Qd[i, j] != 0:
                 bad.append(f"zero[{i},{j}]")
